@@ -248,10 +248,27 @@ def _storage_strings(ctx, n_random):
     return res
 
 
+def _corpus_calls(ctx):
+    """corpus/C12/*.json: {"calls": [[helper, args], ...]} — hand-written edge cases and minimised past failures, run first"""
+    import glob
+    import json
+    import os
+    known = {'pack': 1, 'storage_gib': 3, 'round_gib': 1, 'storage_str': 3, 'adjust_mem': 4, 'mem_of': 3, 'convert': 6}
+    out = []
+    for f in sorted(glob.glob(os.path.join(ctx.verif, 'corpus', ID, '*.json'))):
+        with open(f) as fh:
+            doc = json.load(fh)
+        for c in doc.get('calls', []):
+            if not (isinstance(c, list) and len(c) == 2 and c[0] in known and isinstance(c[1], list) and len(c[1]) == known[c[0]]):
+                raise RuntimeError(f'corpus file {f}: malformed call {c!r}')
+            out.append([c[0], list(c[1])])
+    return out
+
+
 def _helper_calls(ctx, n_random):
     t = _get_tables(ctx)
     rng = ctx.rng
-    calls = []
+    calls = _corpus_calls(ctx)
     for k in range(0, 15):
         for d in (-2, -1, 0, 1, 2):
             calls.append(['pack', [250 * 2 ** k + d]])
